@@ -74,6 +74,50 @@ def Env.readingStore (E : Env) (find : String → FindOut) (id : String) : Env :
   { E with storeFails := isRevoked (getRevocations (find id)) == .error
            revoked := fun x => isRevoked (getRevocations (find x)) == .yes }
 
+/-! ## verifier.RegisterRevocation: how a revocation gets INTO the store (was an input; C11 models the status-list side) -/
+
+/-- a `credential.Revocation` as RegisterRevocation reads it -/
+structure Rev where
+  subject : String            -- revocation.Subject.String(): the id of the revoked credential
+  fragment : String           -- revocation.Subject.Fragment
+  hasContext : Bool           -- len(r.Context) != 0
+  typeOK : Bool               -- r.Type contains CredentialRevocation
+  issuer : String
+  date : Time
+  hasProof : Bool             -- r.Proof != nil
+  vm : String                 -- r.Proof.VerificationMethod.String()
+  proofDecodes : Bool         -- document.UnmarshalProofValue(&ldProof) succeeds
+  deriving Repr, DecidableEq, Inhabited
+
+/-- `verifier.RegisterRevocation`, return by return (ValidateRevocation's five guards first).  `sigOK` is the measured outcome of
+    `ldProof.Verify(document.DocumentWithoutProof(), JSONWebSignature2020, pk)`; `storeOK` = StoreRevocation succeeds.
+    The key is resolved at the revocation's OWN date, in the assertion relationship. -/
+def registerRevocation (E : Env) (sigOK : Key → Rev → Bool) (storeOK : Bool) (store : List Rev) (r : Rev) : Res (List Rev) :=
+  if r.subject == "" || r.fragment == "" then .err "invalid" else
+  if r.hasContext && !r.typeOK then .err "invalid" else
+  if r.issuer == "" then .err "invalid" else
+  if r.date == zeroTime then .err "invalid" else
+  if !r.hasProof then .err "invalid" else
+  if beforeHash r.subject != r.issuer then .err "issuer-not-credential-issuer" else
+  if beforeHash r.vm != r.issuer then .err "vm-not-of-issuer" else
+  match resolveKeyByID E (some r.date) r.vm with
+  | none => .err "no-key"
+  | some k =>
+    if !r.proofDecodes then .err "proof-malformed" else
+    if !sigOK k r then .err "bad-signature" else
+    if !storeOK then .err "store" else .ok (store ++ [r])
+
+/-- a history of RegisterRevocation calls (each with its own store outcome); a refused call leaves the store as it was -/
+def registerAll (E : Env) (sigOK : Key → Rev → Bool) : List Rev → List (Rev × Bool) → List Rev
+  | store, [] => store
+  | store, (r, storeOK) :: rest =>
+    match registerRevocation E sigOK storeOK store r with
+    | .ok s' => registerAll E sigOK s' rest
+    | _ => registerAll E sigOK store rest
+
+/-- the store's answer to the query for credential id `id` (all stored documents decode: they were marshalled by StoreRevocation) -/
+def findIn (store : List Rev) (id : String) : FindOut := .docs ((store.filter (fun r => r.subject == id)).map (fun _ => true))
+
 /-- canonical text of the driver / harness line -/
 def GetRev.show : GetRev → String
   | .readError => "read-error" | .notFound => "not-found" | .decodeError => "decode-error" | .found n => "found:" ++ toString n
